@@ -89,8 +89,21 @@ class Lock:
         self.fh.close()
 
 
+def ensure_disk(min_free_gb=40):
+    """The Go build cache grows with every tree the checks compile (some 2 GB per working tree: 500 generated packages).
+    When the disk runs low it is emptied: the next build is slower, nothing else changes."""
+    try:
+        free = shutil.disk_usage(BUILD if os.path.isdir(BUILD) else VERIF).free
+        if free < min_free_gb * (1 << 30):
+            log("disk space low (%.1f GB free): emptying the Go build cache" % (free / (1 << 30)))
+            run(["go", "clean", "-cache"], env=GOENV, timeout=900)
+    except OSError:
+        pass
+
+
 def build_dir():
     """Per-working-tree build directory; only the two most recent are kept."""
+    ensure_disk()
     h = repo_hash()
     d = os.path.join(BUILD, "t-" + h)
     if not os.path.isdir(d):
